@@ -1,12 +1,20 @@
 import PfModel.DriverLib
 import PfModel.Model.CachePolicy
+import PfModel.Model.CachePolicyShared
 /-! Driver for C14 (`cache.run`). Run: `lake env lean --run Driver/C14.lean < requests.jsonl`.
 
 Request `{"kind": "lru"|"hybrid"|"simple"|"disk", "max": n|null, "weights": [wa, wd]?, "lru": n|null?, "keys": [k…],
 "ops": [["put", k, v, d] | ["get", k] | ["has", k] | ["len"] | ["clear"] | ["reopen", max|null, lru|null]]}`.
 Response: one entry per executed operation with the observation, the keys of `keys` that are present afterwards, the
 length afterwards and a description of the abstract state; `err` when the model raises (the run stops there);
-`spec_ok`: the abstract recency-list specification, run alongside, agrees with the LRU model after every step. -/
+`spec_ok`: the abstract recency-list specification, run alongside, agrees with the LRU model after every step.
+
+`cache.interleave` — `{"kind": "lru"|"hybrid", "max": n, "weights": [wa, wd]?, "schedule": [[pid, op] …]}`: runs the schedule on the
+process model `PF.Cache.Shared.exec` (lock, critical sections of container accesses; `lruBody` for lru, `Body.ofSem` for hybrid).
+Response: `lin` (`[pid, op]` per entered critical section, in order), `log`
+(`[ticket, pid, observation]` per returned operation), `lock`, and `seq_ok`: the sequential run of the linearisation gives every
+logged result and, when the lock is free, a state with the same length as the shared one (theorem `C14_shared_linearisable`,
+re-evaluated on the executable code). -/
 open Lean PF.Drv PF.Cache
 
 def getOp (j : Json) : R Op := do
@@ -71,8 +79,44 @@ def diskJ (s : Disk) : Json :=
 def finishJ (p : List Json × Option Err) (specOk : Bool) : Json :=
   jObj [("steps", jArr p.1), ("err", jOpt errJ p.2), ("spec_ok", jBool specOk)]
 
+def opJ : Op → Json
+  | .put k v d => jArr [jStr "put", jNat k, jNat v, jNat d]
+  | .get k => jArr [jStr "get", jNat k]
+  | .has k => jArr [jStr "has", jNat k]
+  | .len => jArr [jStr "len"]
+  | .clear => jArr [jStr "clear"]
+  | .reopen m l => jArr [jStr "reopen", jOpt jNat m, jOpt jNat l]
+
+def getEv (j : Json) : R (Nat × Op) := do
+  match ← asArr j with
+  | [p, op] => return (← asNat p, ← getOp op)
+  | _ => .error s!"bad schedule event {j.compress}"
+
+/-- run a schedule on the process model and re-evaluate the linearisability theorem on the outcome -/
+def interleaveJ {σ L : Type} (B : PF.Cache.Shared.Body σ L) (M : Sem σ) (s0 : σ) (sch : List (Nat × Op)) : Json :=
+  let c := PF.Cache.Shared.exec B (PF.Cache.Shared.Config.init s0) sch
+  let lenOf : σ → Option Nat := fun s => match M.step s .len with | .ok (_, .nat n) => some n | _ => none
+  let seqOk := match M.run s0 (c.lin.map (·.2)) with
+    | .error _ => false
+    | .ok (s, os) => c.log.all (fun e => os[e.1]? == some e.2.2.2) && (c.lock.isSome || lenOf s == lenOf c.shared)
+  jObj [("lin", jList (fun e => jArr [jNat e.1, opJ e.2]) c.lin), ("log", jList (fun e => jArr [jNat e.1, jNat e.2.1, obsJ e.2.2.2]) c.log),
+        ("lock", jOpt jNat c.lock), ("len", jOpt jNat (lenOf c.shared)), ("seq_ok", jBool seqOk)]
+
 def handle (m : String) (a : Json) : R Json := do
   match m with
+  | "cache.interleave" =>
+    let kind ← strF a "kind"
+    let sch ← listF getEv a "schedule"
+    let some n ← optF asNat a "max" | .error "interleave: max required"
+    if n = 0 then .error "interleave: max_size 0 is outside the property"
+    let isReopen : Op → Bool := fun | .reopen _ _ => true | _ => false
+    if sch.any (fun e => isReopen e.2) then .error "reopen is a DiskCache operation"
+    match kind with
+    | "lru" => return interleaveJ PF.Cache.Shared.lruBody lruSem (LRU.empty n) sch
+    | "hybrid" =>
+      let (wa, wd) ← asPair asNat asNat (← fld a "weights")
+      return interleaveJ (PF.Cache.Shared.Body.ofSem hybSem) hybSem (Hyb.empty n wa wd) sch
+    | _ => .error s!"interleave: unknown shared cache kind {kind}"
   | "cache.run" =>
     let kind ← strF a "kind"
     let ops ← listF getOp a "ops"
